@@ -346,23 +346,23 @@ example : decode (.struct [("a".toList, .int), ("o".toList, .option .int), ("xs"
     some (.struct [("a".toList, .int (-3)), ("o".toList, .none_), ("xs".toList, .list [.str "é\"".toList])]) := by
   apply roundtrip <;> rfl
 
-/-! ### Inherited fields keep declaration order -/
+/-! ### Inherited fields keep declaration order; overriding methods win -/
 
 /-- Parent of level `i` in a chain started under `parent`. -/
-def parentOf (levels : List (String × List (List Char × Ty))) (parent : Option String) : Nat → Option String
+def parentOf {α : Type} (levels : List (String × α)) (parent : Option String) : Nat → Option String
   | 0 => parent
   | i + 1 => (levels[i]?).map (·.1)
 
-theorem findClass_chain (levels : List (String × List (List Char × Ty))) (parent : Option String)
+theorem findDecl_chain {α : Type} (levels : List (String × α)) (parent : Option String)
     (hnd : (levels.map (·.1)).Nodup) (i : Nat) (hi : i < levels.length) :
-    findClass (chainDecls levels parent) (levels[i]).1
+    findDecl (chainDecls levels parent) (levels[i]).1
       = some ⟨(levels[i]).1, parentOf levels parent i, (levels[i]).2⟩ := by
   induction levels generalizing parent i with
   | nil => simp at hi
   | cons l rest ih =>
     obtain ⟨n, fs⟩ := l
     cases i with
-    | zero => simp [chainDecls, findClass, parentOf]
+    | zero => simp [chainDecls, findDecl, parentOf]
     | succ j =>
       have hj : j < rest.length := by simpa using hi
       have hnd' : (rest.map (·.1)).Nodup := (List.nodup_cons.1 (by simpa using hnd)).2
@@ -372,7 +372,7 @@ theorem findClass_chain (levels : List (String × List (List Char × Ty))) (pare
           rw [h]; exact List.mem_map.2 ⟨rest[j], List.getElem_mem hj, rfl⟩
         exact (List.nodup_cons.1 (by simpa using hnd)).1 hmem
       have := ih (some n) hnd' j hj
-      simp only [findClass] at this ⊢
+      simp only [findDecl] at this ⊢
       simp only [chainDecls, List.getElem_cons_succ, List.find?_cons]
       have hb : (n == (rest[j]).1) = false := by simpa using hne
       simp only [hb]
@@ -381,7 +381,13 @@ theorem findClass_chain (levels : List (String × List (List Char × Ty))) (pare
       | zero => simp [parentOf]
       | succ k => simp [parentOf]
 
-theorem inherited_chain (levels : List (String × List (List Char × Ty)))
+theorem chainDecls_length {α : Type} (levels : List (String × α)) (parent : Option String) :
+    (chainDecls levels parent).length = levels.length := by
+  induction levels generalizing parent with
+  | nil => rfl
+  | cons l rest ih => obtain ⟨n, fs⟩ := l; simp [chainDecls, ih]
+
+theorem inherited_chain (levels : List (String × Fields))
     (hnd : (levels.map (·.1)).Nodup) (i : Nat) (hi : i < levels.length) (fuel : Nat) (hf : i < fuel) :
     inheritedFields (chainDecls levels none) fuel (levels[i]).1 = (levels.take (i + 1)).flatMap (·.2) := by
   induction i generalizing fuel with
@@ -389,7 +395,7 @@ theorem inherited_chain (levels : List (String × List (List Char × Ty)))
     cases fuel with
     | zero => omega
     | succ f =>
-      have h0 := findClass_chain levels none hnd 0 hi
+      have h0 := findDecl_chain levels none hnd 0 hi
       simp only [inheritedFields, h0, parentOf]
       cases levels with
       | nil => simp at hi
@@ -399,22 +405,16 @@ theorem inherited_chain (levels : List (String × List (List Char × Ty)))
     | zero => omega
     | succ f =>
       have hj : j < levels.length := by omega
-      have hs := findClass_chain levels none hnd (j + 1) hi
+      have hs := findDecl_chain levels none hnd (j + 1) hi
       simp only [inheritedFields, hs, parentOf, List.getElem?_eq_getElem hj, Option.map_some]
       rw [ih hj f (by omega)]
       rw [List.take_succ_eq_append_getElem hi, List.flatMap_append]
       simp
 
-theorem chainDecls_length (levels : List (String × List (List Char × Ty))) (parent : Option String) :
-    (chainDecls levels parent).length = levels.length := by
-  induction levels generalizing parent with
-  | nil => rfl
-  | cons l rest ih => obtain ⟨n, fs⟩ := l; simp [chainDecls, ih]
-
 /-- MAIN (field order): in a chain `C0 <- C1 <- … <- Cn` of classes with distinct names, the struct emitted for
 every `Ci` lists the fields of `C0`, then `C1`, …, then its own: the declaration order that derived `Ord` compares
 in and that `json_stringify` writes. -/
-theorem chain_fields_in_declaration_order (levels : List (String × List (List Char × Ty)))
+theorem chain_fields_in_declaration_order (levels : List (String × Fields))
     (hnd : (levels.map (·.1)).Nodup) (i : Nat) (hi : i < levels.length) :
     classFields (chainDecls levels none) ⟨(levels[i]).1, parentOf levels none i, (levels[i]).2⟩
       = (levels.take (i + 1)).flatMap (·.2) := by
@@ -430,14 +430,112 @@ theorem chain_fields_in_declaration_order (levels : List (String × List (List C
     rw [List.take_succ_eq_append_getElem hi, List.flatMap_append]
     simp
 
-/-- and the declaration the checker / lowering finds for `Ci` is that one. -/
-theorem chain_lookup (levels : List (String × List (List Char × Ty))) (hnd : (levels.map (·.1)).Nodup)
+/-- and the declaration the lowering finds for `Ci` is that one. -/
+theorem chain_lookup (levels : List (String × Fields)) (hnd : (levels.map (·.1)).Nodup)
     (i : Nat) (hi : i < levels.length) :
-    findClass (chainDecls levels none) (levels[i]).1 = some ⟨(levels[i]).1, parentOf levels none i, (levels[i]).2⟩ :=
-  findClass_chain levels none hnd i hi
+    findDecl (chainDecls levels none) (levels[i]).1 = some ⟨(levels[i]).1, parentOf levels none i, (levels[i]).2⟩ :=
+  findDecl_chain levels none hnd i hi
 
-example : classFields (chainDecls [("Base", [(['a'], .int)]), ("Mid", [(['b'], .int)]), ("Leaf", [(['c'], .int)])] none)
+example : classFields (chainDecls [("Base", [(['a'], Ty.int)]), ("Mid", [(['b'], .int)]), ("Leaf", [(['c'], .int)])] none)
     ⟨"Leaf", some "Mid", [(['c'], .int)]⟩ = [(['a'], .int), (['b'], .int), (['c'], .int)] := by
-  simp [classFields, chainDecls, inheritedFields, findClass]
+  simp [classFields, chainDecls, inheritedFields, findDecl]
+
+/-! #### Overriding -/
+
+theorem dispatch_addOwn (acc : List (String × String)) (owner : String) (ms : List String) (m : String) :
+    dispatch (addOwn acc owner ms) m = if m ∈ ms then some owner else dispatch acc m := by
+  induction ms generalizing acc with
+  | nil => simp [addOwn]
+  | cons x ms ih =>
+    simp only [addOwn]
+    rw [ih]
+    by_cases hm : m ∈ ms
+    · simp [hm]
+    · simp only [hm, if_false, List.mem_cons, or_false]
+      unfold dispatch
+      rw [List.find?_append]
+      by_cases hx : m = x
+      · subst hx
+        have : (acc.filter fun e => e.1 != m).find? (fun e => e.1 == m) = none := by
+          rw [List.find?_eq_none]; intro e he; simp at he; simp; exact he.2
+        simp [this]
+      · have hf : (acc.filter fun e => e.1 != x).find? (fun e => e.1 == m) = acc.find? (fun e => e.1 == m) := by
+          induction acc with
+          | nil => rfl
+          | cons e rest ihr =>
+            by_cases hex : e.1 = x
+            · have hem : (e.1 == m) = false := by
+                rw [hex]; exact beq_false_of_ne (fun h => hx h.symm)
+              have hne : (e.1 != x) = false := by simp [hex]
+              rw [List.filter_cons, hne, List.find?_cons, hem]
+              simpa using ihr
+            · have hne : (e.1 != x) = true := by simp [hex]
+              rw [List.filter_cons, hne]
+              simp only [if_true, List.find?_cons]
+              rw [ihr]
+        rw [hf]
+        have hxm : (x == m) = false := by simp; exact fun h => hx h.symm
+        cases acc.find? (fun e => e.1 == m) with
+        | some e => simp [hx]
+        | none => simp [List.find?_cons, hxm, hx]
+
+/-- Python's resolution for single inheritance, from the root-first list of (class, methods it declares): the last
+class of the chain that declares `m`. -/
+def specOwner (levels : List (String × List String)) (m : String) : Option String :=
+  ((levels.filter fun l => l.2.contains m).getLast?).map (·.1)
+
+theorem specOwner_snoc (levels : List (String × List String)) (l : String × List String) (m : String) :
+    specOwner (levels ++ [l]) m = if m ∈ l.2 then some l.1 else specOwner levels m := by
+  unfold specOwner
+  rw [List.filter_append]
+  by_cases h : m ∈ l.2
+  · have : l.2.contains m = true := List.contains_iff_mem.2 h
+    simp [List.filter_cons, this, h]
+  · have : l.2.contains m = false := by
+      cases hc : l.2.contains m with
+      | false => rfl
+      | true => exact absurd (List.contains_iff_mem.1 hc) h
+    simp [List.filter_cons, this, h]
+
+theorem methods_chain (levels : List (String × List String))
+    (hnd : (levels.map (·.1)).Nodup) (i : Nat) (hi : i < levels.length) (fuel : Nat) (hf : i < fuel) (m : String) :
+    dispatch (inheritedMethods (chainDecls levels none) fuel (levels[i]).1) m = specOwner (levels.take (i + 1)) m := by
+  induction i generalizing fuel with
+  | zero =>
+    cases fuel with
+    | zero => omega
+    | succ f =>
+      have h0 := findDecl_chain levels none hnd 0 hi
+      simp only [inheritedMethods, h0, parentOf, dispatch_addOwn]
+      cases levels with
+      | nil => simp at hi
+      | cons l rest =>
+        have := specOwner_snoc [] l m
+        simp only [List.nil_append] at this
+        simp only [List.take_succ_cons, List.take_zero, List.getElem_cons_zero, this]
+        simp [specOwner, dispatch]
+  | succ j ih =>
+    cases fuel with
+    | zero => omega
+    | succ f =>
+      have hj : j < levels.length := by omega
+      have hs := findDecl_chain levels none hnd (j + 1) hi
+      simp only [inheritedMethods, hs, parentOf, List.getElem?_eq_getElem hj, Option.map_some, dispatch_addOwn]
+      rw [ih hj f (by omega)]
+      rw [List.take_succ_eq_append_getElem hi, specOwner_snoc]
+
+/-- MAIN (overriding): a call of `m` on an instance of `Ci` runs the body of the most derived class of
+`C0 <- … <- Ci` that declares `m` — an overriding method always wins over the inherited one, and a method that is
+not re-declared is the ancestor's. -/
+theorem override_wins (levels : List (String × List String))
+    (hnd : (levels.map (·.1)).Nodup) (i : Nat) (hi : i < levels.length) (m : String) :
+    dispatch (inheritedMethods (chainDecls levels none) (chainDecls (α := List String) levels none).length (levels[i]).1) m
+      = specOwner (levels.take (i + 1)) m :=
+  methods_chain levels hnd i hi _ (by rw [chainDecls_length]; exact hi) m
+
+example : dispatch (inheritedMethods (chainDecls [("Animal", ["speak", "name"]), ("Dog", ["speak"])] none) 2 "Dog") "speak"
+    = some "Dog" := by decide
+example : dispatch (inheritedMethods (chainDecls [("Animal", ["speak", "name"]), ("Dog", ["speak"])] none) 2 "Dog") "name"
+    = some "Animal" := by decide
 
 end Incan.Derive
